@@ -363,12 +363,16 @@ func richDrawCheck(w *harness.W, wc wcase, in []vaxis.Character, lines []line) {
 	for r, l := range lines {
 		col := 0
 		for k, c := range l.g {
-			if col >= int(sf.Size.Width) {
-				break
-			}
 			if isSpaceG(c.Grapheme) || c.Width == 0 {
 				col += c.Width
 				continue
+			}
+			if col+c.Width > int(sf.Size.Width) && col == 0 && c.Width > wc.Width {
+				break // a single grapheme wider than the line cannot be shown
+			}
+			if col+c.Width > int(sf.Size.Width) {
+				w.Violation("rich-draw:line-cut-off", fmt.Sprintf("row %d of RichText.Draw(%q, width %d): the surface is %d wide, %q of the emitted line would start at column %d", r, wc.Text, wc.Width, sf.Size.Width, c.Grapheme, col), wc, fmt.Sprint(sf.Size.Width), "a surface as wide as its widest line")
+				return
 			}
 			cell := sf.Buffer[r*int(sf.Size.Width)+col]
 			id := -1
@@ -454,12 +458,16 @@ func drawCheck(w *harness.W, wc wcase, lines []line) {
 	for r, l := range lines {
 		col := 0
 		for _, c := range l.g {
-			if col >= int(s.Size.Width) {
-				break
-			}
 			if isSpaceG(c.Grapheme) || c.Width == 0 {
 				col += c.Width
 				continue
+			}
+			if col+c.Width > int(s.Size.Width) {
+				if col > 0 || c.Width <= wc.Width {
+					w.Violation("draw:line-cut-off", fmt.Sprintf("row %d of Text.Draw(%q, width %d): the surface is %d wide, %q of the emitted line would start at column %d", r, wc.Text, wc.Width, s.Size.Width, c.Grapheme, col), wc, fmt.Sprint(s.Size.Width), "a surface as wide as its widest line")
+					return
+				}
+				break // a single grapheme wider than the line cannot be shown
 			}
 			cell := s.Buffer[r*int(s.Size.Width)+col]
 			if cell.Grapheme != c.Grapheme {
